@@ -63,7 +63,7 @@ func (w *c08world) handler(r *http.Request, rec *rig.OriginReq) ([]byte, bool) {
 	if !ok {
 		return []byte("HTTP/1.1 599 No Script\r\nContent-Length: 0\r\n\r\n"), true
 	}
-	rec.Note = id
+	rec.SetNote(id)
 	var b strings.Builder
 	fmt.Fprintf(&b, "HTTP/1.1 %d %s\r\n", s.Status, http.StatusText(s.Status))
 	sawConn := false
